@@ -149,7 +149,7 @@ class Gen:
 
     def dt(self):
         """dtype / container of the arrays the user hands over (see adapters._as)."""
-        return self.rng.choice((False, False, False, False, True, True, "be", "be64", "ma"))
+        return self.rng.choice((False, False, False, False, True, True, "be", "be64", "ma", "strided", "fortran"))
 
     def emit(self, **op):
         op["clock"] = clock_step(self.rng)
@@ -286,7 +286,7 @@ class Gen:
         if k in ("add", "remove", "replace", "set", "reput"):
             self.mutation(f, k)
         elif k == "edit_restore":
-            seg = [c for c, d in self.present[f].items() if d and c in (5, 11, 12, 9, 4, 16)]
+            seg = [c for c, d in self.present[f].items() if d and c in (5, 11, 12, 9, 4, 16, 2)]
             if seg:
                 q = rng.random()
                 self.emit(op="edit_restore", f=f, code=rng.choice(seg),
